@@ -4,6 +4,8 @@
 //verif:native-timeout 120000
 //verif:assume purge drivers end to end over in-memory stores (as C14's end-to-end harness: real PurgeBuildReverseIndex / PurgeDeleteUnused, openKV routed to the in-memory KV model symbolically, real pebble natively); faults: the solver picks one store call (any call on the metadata or blob store, reads and listings included) of the index build or of delete-unused that fails once (transient), or the mutating call at which the index build dies (fail-stop, landed or not) after which the build is resumed with --resume on a fresh local KV store
 //verif:assume world as in C14: two committed bundles sharing a file, the blobs of a deleted bundle, one bundle uploaded after the index build; index chunk size 2 (so several chunks exist); one variant with 12 keys at one key per chunk and a crash after the tenth chunk; listings returning full pages or at most two keys per page; in the crash variants the late bundle's blobs are written before the resume and the bundle is committed after it (an interrupted upload retried as a whole, or one long upload whose metadata lands after the resumed build)
+//verif:assume cut index transfer: after a fault-free index build (2 keys per chunk) the transfer of one stored index chunk is cut (before the first byte, after the first line, in the middle, before the last byte) while delete-unused - or a resumed build followed by delete-unused - loads it
+//verif:cover VerifC13CutChunk delete-unused-failed resumed-build-failed
 //verif:cover VerifC13PurgeFaults upload-between-crash-and-resume short-listing-pages resumed-after-ten-chunks fault-in-build fault-in-delete build-crashed-and-resumed reported-failure-retried late-upload-reuses-orphaned-blobs two-repositories extra-context upload-in-flight-across-the-resume blob-store-without-touch chunks-numbered-from-100
 package core
 
@@ -147,5 +149,49 @@ func VerifC13PurgeFaults() {
 	}
 	if !partial {
 		w.downloadable("bundles-still-download-after-purge")
+	}
+}
+
+// VerifC13CutChunk: an index chunk that arrives truncated is never taken for the whole index: delete-unused (or the
+// resumed build that loads it) fails, or no blob a committed bundle needs is deleted.
+func VerifC13CutChunk() {
+	vBudget(900000000)
+	vUnwind(600000)
+	w := vNewPurgeWorldN(0)
+	stores := vCtxStoresAll(w.meta, w.meta, w.blob)
+	vNextSecond()
+	_, err := PurgeBuildReverseIndex(stores, append([]PurgeOption{WithPurgeLogger(zap.NewNop()), WithPurgeLocalStore(vKVDir("kv-build")),
+		WithPurgeIndexChunkSize(2), WithPurgeParallel(1)}, w.extraOpts()...)...)
+	vAssert(err == nil, "index-build-succeeds")
+	var chunks []string
+	for _, k := range w.meta.keys {
+		if len(k) >= len(model.ReverseIndexPrefix()) && k[:len(model.ReverseIndexPrefix())] == model.ReverseIndexPrefix() {
+			chunks = append(chunks, k)
+		}
+	}
+	vAssert(len(chunks) >= 2, "several-chunks")
+	victim := chunks[vChoose("chunk", len(chunks))]
+	n := len(w.meta.data[victim])
+	cut := []int{0, 31, n / 2, n - 1}[vChoose("cutAt", 4)]
+	vAssume(cut < n)
+	w.meta.cutAfter = map[string]int{victim: cut}
+	vNextSecond()
+	if vChoose("resumeFirst", 2) == 1 {
+		_, rerr := PurgeBuildReverseIndex(stores, append([]PurgeOption{WithPurgeLogger(zap.NewNop()), WithPurgeLocalStore(vKVDir("kv-build-2")),
+			WithPurgeIndexChunkSize(2), WithPurgeParallel(1), WithPurgeResumeIndex(true)}, w.extraOpts()...)...)
+		if rerr != nil {
+			vCover("resumed-build-failed")
+		}
+		w.meta.cutAfter = nil
+	}
+	vNextSecond()
+	_, derr := PurgeDeleteUnused(stores, append([]PurgeOption{WithPurgeLogger(zap.NewNop()), WithPurgeLocalStore(vKVDir("kv-delete")), WithPurgeParallel(1)}, w.extraOpts()...)...)
+	w.meta.cutAfter = nil
+	if derr != nil {
+		vCover("delete-unused-failed")
+	}
+	for k := range w.referenced {
+		_, ok := w.blob.data[k]
+		vAssert(ok, "no-blob-of-a-committed-bundle-is-deleted")
 	}
 }
